@@ -179,6 +179,11 @@ def permute_class_mappings(nspec, value, rng, failing):
                     extras.add(k[2])
         if not is_class:
             continue
+        if not failing and '_yatiml_extra' not in args:
+            # no extra attributes to keep in order: keys that are no
+            # parameters (written by sweeteners, removed by savorizers) move
+            # like the others
+            extras = set()
         keys = [repr(k) for k, _ in s[1]]
         if len(set(keys)) != len(keys) or any(
                 k[0] == 's' and k[1] == D.CORE + 'merge' for k, _ in s[1]):
@@ -369,6 +374,53 @@ def shard(ctx):
     lone_class_cases(ctx, rng, ctx.budget(600, 8000))
     no_class_cases(ctx, rng, ctx.budget(1500, 20000))
     bool_union_cases(ctx, rng)
+    if ctx.shard == 2:
+        directed_cases(ctx, rng)
+
+
+def directed_cases(ctx, rng):
+    """(a) a class whose savorizer takes two keys off its node one after the
+    other (and sets a third): the order of the keys in the document must not
+    matter; (b) Unions of two sequence / mapping types with different item
+    types, documents that one member rejects at an item: the container
+    rotation must not matter."""
+    two = {'name': 'TwoSugar', 'kind': 'plain',
+           'params': [{'name': 'ts_x', 'type': 'int'},
+                      {'name': 'ts_y', 'type': 'str', 'default': 'd'}],
+           'recognize': ['all', ['attr', 'ts_x', None]],
+           'savorize': [['remove_attr', 'ka'], ['remove_attr', 'kb'],
+                        ['remove_attr', 'kc']],
+           'sweeten': [['set_attr', 'ka', 1], ['set_attr', 'kb', 2],
+                       ['set_attr', 'kc', 3]]}
+    spec = {'classes': [two], 'doc_type': ['list', ['cls', 'TwoSugar']]}
+    try:
+        m = H.model_of(spec)
+        spec = H.clean_spec(spec)
+        T = m.classes['TwoSugar']
+        for i in range(40):
+            v = [T(ts_x=i, ts_y=rng.choice(['d', 'e'])) for _ in range(2)]
+            nspec = D.spec_of(D.proj(m, v, sweeten=True))
+            ctx.count('directed_two_removals')
+            for _ in range(3):
+                run_case(ctx, spec, nspec, rng.choice(D.STYLES),
+                         rng.getrandbits(32), only='permute')
+    except Exception as e:
+        ctx.note('directed two-removals family: %r' % (e,))
+    docs = [[1, 2], ['a', 'b'], [1, 'a'], [], [[1], ['a']], {'k': 1},
+            {'k': 'a'}, {'k': 1, 'l': 'a'}, {'k': [1, 2]}, {'k': ['a']}]
+    types = [['union', ['list', 'int'], ['list', 'str']],
+             ['union', ['dict', 'str', 'int'], ['dict', 'str', 'str']],
+             ['list', ['union', ['list', 'int'], ['list', 'str']]],
+             ['dict', 'str', ['union', ['list', 'int'], ['list', 'str'],
+                              'int']],
+             ['union', ['list', ['list', 'int']], ['list', ['list', 'str']]]]
+    for dt in types:
+        for d in docs:
+            ctx.count('directed_container_unions')
+            run_case(ctx, {'classes': [], 'doc_type': dt,
+                           'profile': 'no-class'}, D.spec_of(d),
+                     rng.choice(['block', 'flow']), rng.getrandbits(32),
+                     only='container_swap')
 
 
 def lone_class_cases(ctx, rng, n):
